@@ -173,6 +173,17 @@ def main(argv):
         if res and len(samples) < 6:
             samples.append({"family": fam.name, "script": res[0]["script"].split("\n")[:12],
                             "impl_output": res[0]["c"][:12]})
+    # property-specific additional runs (e.g. the ThreadSanitizer harness of C19)
+    if hasattr(P, "extra"):
+        try:
+            xh, xstats = P.extra(tier, seed, {"cdir": cdir, "qdir": qdir, "status": status})
+        except vlib.BuildError as e:
+            xh, xstats = [], {"error": str(e)[:300]}
+            notes.append("extra run could not be built: " + str(e)[:200])
+        for h in xh:
+            h.setdefault("family", "extra"); h.setdefault("script_name", "-"); h.setdefault("script", ""); h.setdefault("c", [])
+        hits_all += xh
+        corr["extra"] = xstats
     corr["disagreements"] = len(disagree)
     corr["sanitizer_reports"] = len(crashes)
     corr["monitor_hits"] = len(hits_all)
